@@ -243,6 +243,8 @@ def knobs(rng):
         p_window=rng.choice([0.0, 0.2]),
         p_call=rng.choice([0.0, 0.3, 0.5]),
         p_alloc=rng.choice([0.4, 0.6]),
+        p_if=rng.choice([0.25, 0.5]),
+        p_boolnest=rng.choice([0.12, 0.4]),
         max_stmts=rng.choice([6, 10]),
     )
 
@@ -264,7 +266,7 @@ def shard(ctx):
     from ..templates import any_template
 
     prof = StreamProfile(knobs_fn=knobs, script_len=ctx.params["script_len"], op_weights=weights(), templates=any_template)
-    prof.template_prob = 0.2
+    prof.template_prob = 0.3
     run_stream(ctx, prof, [PrintMonitor(ctx)])
 
 
